@@ -304,6 +304,45 @@ pub fn generate(ctx: &Ctx, rng: &mut Rng, n_ops: u64) -> String {
             }
         }
     }
+    // tours holding two (or more) maintenance slots: the visits-maintenance flag and the
+    // maintenance counter must survive losing / overriding one of them (either by `remove` or by an
+    // insertion whose path is shorter than the range it replaces)
+    let maints: Vec<usize> = (0..nn).filter(|&i| ctx.nw.node(ctx.n(i)).is_maintenance()).collect();
+    if maints.len() >= 2 && rng.chance(60) {
+        let vt = rng.below(ntypes as u64) as usize;
+        let mut best: Vec<usize> = vec![];
+        for _ in 0..40 {
+            let p = random_path(ctx, rng, Some(vt), 6);
+            let nm = p.iter().filter(|&&i| ctx.nw.node(ctx.n(i)).is_maintenance()).count();
+            let bm = best.iter().filter(|&&i| ctx.nw.node(ctx.n(i)).is_maintenance()).count();
+            if nm > bm || (nm == bm && p.len() > best.len()) {
+                best = p;
+            }
+        }
+        let bm = best.iter().filter(|&&i| ctx.nw.node(ctx.n(i)).is_maintenance()).count();
+        if bm >= 2 {
+            do_op(&mut st, &mut s, format!("spawn {} {}", vt, list_tok(best.clone())));
+            if let Some(&r) = st.regs.keys().last() {
+                let services: Vec<usize> = (0..nn)
+                    .filter(|&i| {
+                        let n = ctx.nw.node(ctx.n(i));
+                        n.is_service() && ctx.nw.compatible_with_vehicle_type(ctx.n(i), ctx.vt(vt)) && !best.contains(&i)
+                    })
+                    .collect();
+                // single service trips (shorter than most ranges they replace)
+                for _ in 0..4 {
+                    if services.is_empty() {
+                        break;
+                    }
+                    let x = *rng.pick(&services);
+                    do_op(&mut st, &mut s, format!("insert {} {}", r, x));
+                }
+                // and the removal of exactly one of the slots
+                let m = *rng.pick(&best.iter().copied().filter(|&i| ctx.nw.node(ctx.n(i)).is_maintenance()).collect::<Vec<_>>());
+                do_op(&mut st, &mut s, format!("remove {} {} {}", r, m, m));
+            }
+        }
+    }
     for _ in 0..n_ops {
         if st.regs.is_empty() || rng.chance(12) {
             let vt = rng.below(ntypes as u64) as usize;
